@@ -77,7 +77,7 @@ func main() {
 		}
 	} else {
 		// corpus first: forced schedules (Lean schedules replayed on the real code) and deterministic life cycles
-		for _, s := range []string{"restart", "window", "window-busy", "gap", "start-race"} {
+		for _, s := range []string{"restart", "window", "window-busy", "gap", "start-race", "haswork", "foreign"} {
 			jobs = append(jobs, job{0, "sched " + s})
 		}
 		for _, cancel := range []bool{false, true} {
@@ -94,6 +94,11 @@ func main() {
 				jobs = append(jobs, job{0, runCfg{"busy", w, cancel, 1, 1, 1, 2, 4}.String()})
 			}
 		}
+		for w := 1; w <= 3; w++ {
+			for _, cancel := range []bool{false, true} {
+				jobs = append(jobs, job{0, runCfg{"foreign", w, cancel, 2, 5, 1, 3, uint64(10 + w)}.String()})
+			}
+		}
 		for _, w := range []int{1, 3} {
 			jobs = append(jobs,
 				job{0, runCfg{"gpending-none", w, true, 1, 6, 0, 1, 5}.String()},
@@ -105,7 +110,7 @@ func main() {
 		}
 		// generated: stress cases
 		n := 320 * r.Scale
-		modes := []string{"drain", "racing", "racing", "pending", "restart"}
+		modes := []string{"drain", "racing", "racing", "pending", "restart", "foreign"}
 		for i := 0; i < n; i++ {
 			rng, sub := r.Rng.Fork()
 			if i%8 == 7 {
